@@ -187,17 +187,32 @@ def run_case(case, observe=None):
                         results.append(False)
 
         total = sum(len(raw) for _, raw in bufs)
-        min_accept = max(1, min([case["capacity"], rd["read"]] + [x for x in plan if x > 0] + ([case["packet"]] if case.get("packet") else [])))
-        max_calls = min(200 + 4 * (total // min_accept + 1) * (1 + plan.count(0)), 300000)  # a clean transfer needs about total/min_accept sends
+        # number of socket.send calls a clean transfer needs: every call accepts at least min(plan entry, capacity, what the
+        # reader frees per read) bytes; packets restart the count. Three times that (plus the spurious EWOULDBLOCKs) is a runaway.
+        floor = max(1, min(case["capacity"], rd["read"]))
+        accepts = [max(1, min(x, floor)) for x in plan if x > 0] or [floor]
+        pieces = []
+        for _, raw in bufs:
+            pk = case.get("packet") if case["via"] == "send_message" and case.get("packet") else len(raw)
+            pieces += [min(pk, len(raw) - o) for o in range(0, len(raw), max(1, pk))] or [0]
+        clean, j = 0, 0
+        for n in pieces:
+            while n > 0:
+                n -= accepts[j % len(accepts)]
+                j += 1
+                clean += 1
+        max_calls = min(200 + 3 * clean * (1 + plan.count(0)), 300000)
         prog = {"key": None, "t": sim.now}
 
         def stalled():
             # hang verdict without waiting for the horizon: nothing moved on the wire for 120 virtual seconds
+            if len(net.send_calls) > max_calls:
+                return True  # runaway: far more socket.send calls than any clean transfer of these sizes needs
             key = (len(net.send_calls), peer.total_received, len(got), len(results))
             if key != prog["key"]:
                 prog["key"], prog["t"] = key, sim.now
                 return False
-            return sim.now - prog["t"] > 120.0 or len(net.send_calls) > max_calls
+            return sim.now - prog["t"] > 120.0
 
         st_, box = sim.run(driver, horizon=1e5, name="sender", stop=stalled)
         if st_ == "stop":
